@@ -53,12 +53,14 @@ def run(prog, chk):
         "every string reaching a CFF string field has been reduced by the sanitiser (R16.3b)",
         "every info-derived table field of the base builders is forwarded by the variable-font info override (R16.4)",
         "every UFO3 fontinfo attribute is consumed by a builder or is on the reviewed not-in-OpenType list (R16.5)",
+        "each computed fallback consults exactly its documented source attributes (R16.6)",
     ]
     chk.not_decided += ["the field values themselves", "which code points the Unicode database decomposes to ASCII",
                         "that the saved font reloads"]
     static, special = fallback_tables(prog, chk)
     sites, consumed = r161(prog, chk, static, special)
     r162(prog, chk, special)
+    r166(prog, chk, special)
     r163(prog, chk)
     r163b(prog, chk)
     r164(prog, chk)
@@ -276,6 +278,84 @@ def r162(prog, chk, special):
                message=f"fallback of '{a}' is on a cycle {[c for c in cycles if a in c][:1]}: infinite recursion when the attributes are absent")
     chk.extra["fallback_graph_edges"] = sum(len(v) for v in edges.values())
     chk.minimum("R16.2", 25)
+
+
+# ----------------------------------------------------------------------------- R16.6
+# Documented sources of every computed fallback (UFO3 / ufo2ft docstrings, reviewed one
+# by one against the `Fallback to *...*` text of each function on 2026-10-02).  Key:
+# attribute -> (attributes requested through getAttrWithFallback, raw info.<attr> reads).
+DOCUMENTED_FALLBACK_SOURCES = {
+    "ascender": (["unitsPerEm"], []),
+    "descender": (["unitsPerEm"], []),
+    "capHeight": (["unitsPerEm"], []),
+    "xHeight": (["unitsPerEm"], []),
+    "styleMapFamilyName": (["openTypeNamePreferredFamilyName", "openTypeNamePreferredSubfamilyName"], ["styleMapStyleName"]),
+    "styleMapStyleName": (["openTypeNamePreferredSubfamilyName"], []),
+    "openTypeHeadCreated": ([], []),
+    "openTypeHheaAscender": (["ascender", "openTypeOS2TypoLineGap"], []),
+    "openTypeHheaDescender": (["descender"], []),
+    "openTypeHheaCaretSlopeRise": (["italicAngle", "unitsPerEm"], ["openTypeHheaCaretSlopeRun"]),
+    "openTypeHheaCaretSlopeRun": (["italicAngle", "openTypeHheaCaretSlopeRise"], []),
+    "openTypeNameVersion": (["versionMajor", "versionMinor"], []),
+    "openTypeNameUniqueID": (["openTypeNameVersion", "openTypeOS2VendorID", "postscriptFontName"], []),
+    "openTypeNamePreferredFamilyName": (["familyName"], []),
+    "openTypeNamePreferredSubfamilyName": (["styleName"], []),
+    "openTypeNameWWSFamilyName": ([], []),
+    "openTypeNameWWSSubfamilyName": ([], []),
+    "openTypeOS2TypoAscender": (["ascender"], []),
+    "openTypeOS2TypoDescender": (["descender"], []),
+    "openTypeOS2TypoLineGap": (["ascender", "descender", "unitsPerEm"], []),
+    "openTypeOS2WinAscent": (["ascender", "openTypeOS2TypoLineGap"], []),
+    "openTypeOS2WinDescent": (["descender"], []),
+    "postscriptFontName": (["openTypeNamePreferredFamilyName", "openTypeNamePreferredSubfamilyName"], []),
+    "postscriptFullName": (["openTypeNamePreferredFamilyName", "openTypeNamePreferredSubfamilyName"], []),
+    "postscriptSlantAngle": (["italicAngle"], []),
+    "postscriptUnderlineThickness": (["unitsPerEm"], []),
+    "postscriptUnderlinePosition": (["unitsPerEm"], []),
+    "postscriptBlueScale": (["postscriptBlueValues", "postscriptOtherBlues"], []),
+}
+
+
+def r166(prog, chk, special):
+    """An absent attribute is filled from its *documented* sources: the attributes a
+    fallback function consults are exactly the reviewed ones.  (A fallback that starts
+    to consult another attribute makes an explicit value of that attribute leak into
+    an unrelated field.)"""
+    for attr, fn in sorted(special.items()):
+        req, raw = set(), set()
+        seen, work = set(), [fn]
+        while work:
+            f = work.pop()
+            if f.qname in seen:
+                continue
+            seen.add(f.qname)
+            pinfo = f.params()[0] if f.params() else None
+            for n in A.body_nodes(f.node):
+                if isinstance(n, ast.Call) and prog.is_call_to(f, n, GETATTR) and len(n.args) >= 2:
+                    req |= set(possible_values(prog, f, n.args[1]) or {"<unresolved>"})
+                elif isinstance(n, ast.Attribute) and isinstance(n.value, ast.Name) and n.value.id == pinfo and isinstance(n.ctx, ast.Load):
+                    raw.add(n.attr)
+                elif isinstance(n, ast.Call) and A.callee_name(n) in ("getattr", "hasattr") and len(n.args) >= 2 \
+                        and isinstance(n.args[0], ast.Name) and n.args[0].id == pinfo and isinstance(n.args[1], ast.Constant):
+                    raw.add(n.args[1].value)
+                elif isinstance(n, ast.Call):
+                    ts, how = prog.resolve_callee(f, n.func)
+                    for t in ts:
+                        if isinstance(t, FuncInfo) and t.module.name == FID and how == "exact" and t.name != "getAttrWithFallback":
+                            work.append(t)
+        doc = DOCUMENTED_FALLBACK_SOURCES.get(attr)
+        if doc is None:
+            chk.ob("R16.6", f"fallback {attr} has reviewed sources", False, fn.loc(),
+                   message=f"new computed fallback '{attr}' ({fn.short}) has no reviewed list of documented sources")
+            continue
+        extra = (req - set(doc[0])) | (raw - set(doc[1]) - set(doc[0]))
+        missing = set(doc[0]) - req
+        ok = not extra and not missing
+        chk.ob("R16.6", f"fallback {attr} consults its documented sources", ok, fn.loc(),
+               detail=f"requests {sorted(req)}; raw reads {sorted(raw)}",
+               message=f"fallback of '{attr}' consults {sorted(extra) or ''}{' and no longer ' + str(sorted(missing)) if missing else ''}: "
+                       f"documented sources are {doc[0]}; an explicit value of an undocumented source leaks into '{attr}' when it is absent")
+    chk.minimum("R16.6", 25)
 
 
 # ----------------------------------------------------------------------------- R16.3
@@ -652,6 +732,10 @@ MUTANTS = [
       "frozenset(['head', 'hhea', 'name', 'OS/2', 'post', 'vhea', 'gasp'])", "frozenset(['head', 'hhea', 'name', 'OS/2', 'vhea', 'gasp'])", rule="R16.4"),
     M("name table stops reading the sample text", "ufo2ft/outlineCompiler.py", "BaseOutlineCompiler.setupTable_name",
       "getAttrWithFallback(font.info, 'openTypeNameSampleText')", "None", rule="R16.5"),
+    M("win metrics fallback de-duplicated through the hhea attribute (cf. seeded/C16a)", "ufo2ft/fontInfoData.py", "openTypeOS2WinDescentFallback",
+      "getAttrWithFallback(info, 'descender')", "getAttrWithFallback(info, 'openTypeHheaDescender')", rule="R16.6"),
+    M("family-name fallback reads the raw style-map family", "ufo2ft/fontInfoData.py", "openTypeNamePreferredFamilyNameFallback",
+      "getAttrWithFallback(info, 'familyName')", "info.styleMapFamilyName or getAttrWithFallback(info, 'familyName')", rule="R16.6"),
     # equivalents
     M("sanitiser written with continue-style guards", "ufo2ft/fontInfoData.py", "normalizeStringForPostscript",
       "for ch in c:\n    if ch == ' ':\n        if allowSpaces:\n            normalized.append(ch)\n    elif ch in _postscriptFontNameAllowed and ch not in _postscriptFontNameExceptions:\n        normalized.append(ch)",
